@@ -71,6 +71,7 @@ type Case struct {
 	Forever     int    `json:"forever"`     // every DESCRIBE is answered 301 (F11)
 	CloseDuring int    `json:"closeDuring"` // index of the step during which Close() is called concurrently, -1 none
 	Tag         string `json:"tag"`
+	Stale       int    `json:"stale,omitempty"` // 1: every Digest challenge carries a fresh nonce and stale=true (RFC 7616 3.3: "nonce expired, retry"); not part of the model's case: the client must behave exactly as for a plain challenge
 }
 
 type CallRes struct {
